@@ -205,6 +205,11 @@ def execute(world: World, op, step_no, oracle=None, budget=clock.DEFAULT_BUDGET,
 
     try:
         if use_clock:
+            # the budget grows with the square of the longest text involved: replace('', x) and format_matching with
+            # a match at every character are quadratic by construction (about 60 events per character pair), so
+            # a flat budget would call an operation on a 300-character value a hang although it ends
+            n_max = max([len(o.text) for o in [ctx.pre] + [ob for _, ob in ctx.operands.values()] if o is not None] or [0])
+            budget = min(max(budget, 600 * (n_max + 1) ** 2), clock.MAX_BUDGET)
             ctx.result, ctx.events = clock.run(call, budget)
         else:
             ctx.result = call()
